@@ -144,15 +144,34 @@ def dumps(x):
     return json.dumps(x, ensure_ascii=False, separators=(",", ":"))
 
 
+def _kid(kid):
+    """key id `d<n>` -> n (the model's form); anything else is kept as the string it is, so that the
+    oracle can still read the document and the correspondence sees a difference instead of a crash"""
+    if isinstance(kid, str) and re.fullmatch(r"d[0-9]+", kid):
+        return int(kid[1:])
+    return "id:%s" % kid
+
+
+def doc_in_model(doc):
+    """can the driver take this document? (int key ids, one graph, simple)"""
+    if doc["fmt"] == "graphml":
+        if not all(isinstance(k[0], int) for k in doc["keys"]):
+            return False
+        for el in doc["nodes"]:
+            if not all(isinstance(d[0], int) for d in el[2]):
+                return False
+        for el in doc["edges"]:
+            if not all(isinstance(d[0], int) for d in el[3]):
+                return False
+    return doc_simple(doc)
+
+
 def parse_graphml_text(text):
     """the implementation's GraphML text -> document model (document order everywhere)"""
     root = etree.fromstring(text.encode("utf-8"))
     keys = []
     for k in root.findall(NS + "key"):
-        kid = k.get("id")
-        if not re.fullmatch(r"d[0-9]+", kid or ""):
-            raise ValueError("key id %r is not d<n>" % kid)
-        keys.append([int(kid[1:]), k.get("attr.name"), k.get("for"), k.get("attr.type")])
+        keys.append([_kid(k.get("id")), k.get("attr.name"), k.get("for"), k.get("attr.type")])
     graphs = root.findall(NS + "graph")
     if len(graphs) != 1:
         raise ValueError("expected one <graph>")
@@ -164,7 +183,7 @@ def parse_graphml_text(text):
             kid = d.get("key")
             if len(d):
                 raise ValueError("data with sub-elements")
-            out.append([int(kid[1:]), d.text or ""])
+            out.append([_kid(kid), d.text or ""])
         return out
     nodes = [[n.get("id"), n.get("labels"), data(n)] for n in g.findall(NS + "node")]
     edges = [[e.get("source"), e.get("target"), e.get("label"), data(e)] for e in g.findall(NS + "edge")]
@@ -351,17 +370,24 @@ def snapshot(st, gid):
     return {"nodes": nodes, "edges": edges, "graph_ids": sorted({json.dumps(tv(d.get("GraphID"))) for _, d in g.nodes(data=True)})}
 
 
+def node_ids(im, gid):
+    """NodeIDs of a stored graph, in store order"""
+    g = im.nx(gid)
+    return [d.get("NodeID") for _, d in g.nodes(data=True) if d.get("GraphID") == gid]
+
+
 def doc_content(doc):
     """canonical content of a parsed document, independent of internal ids, key ids and order"""
     if doc["fmt"] == "graphml":
-        kt = {k[0]: (k[1], k[3], k[2]) for k in doc["keys"]}
+        kt = {}
+        for k in doc["keys"]:
+            kt.setdefault(k[0], []).append((k[1], k[3], k[2]))
 
         def props(data, scope):
             out = []
             for kid, text in data:
-                name, ty, sc = kt[kid]
-                if sc != scope:
-                    raise ValueError("data refers to a key of the wrong scope")
+                cands = kt.get(kid) or [("?%s" % kid, "?", scope)]
+                name, ty, sc = next((c for c in cands if c[2] == scope), cands[-1])
                 out.append([name, ty, text])
             return sorted(out)
         nid = {}
@@ -393,13 +419,15 @@ def doc_content(doc):
 def markup_errors(doc):
     """label markup demanded by the persistent importer: labels = ':GraphNode:'+Class, label = Class"""
     errs = []
-    kt = {k[0]: (k[1], k[2]) for k in doc["keys"]}
+    kt = {}
+    for k in doc["keys"]:
+        kt.setdefault(k[0], set()).add((k[1], k[2]))
     for n in doc["nodes"]:
-        cls = [t for kid, t in n[2] if kt.get(kid) == ("Class", "node")]
+        cls = [t for kid, t in n[2] if ("Class", "node") in kt.get(kid, ())]
         if len(cls) != 1 or n[1] != ":GraphNode:" + cls[0]:
             errs.append(["node", n[0], n[1], cls])
     for e in doc["edges"]:
-        cls = [t for kid, t in e[3] if kt.get(kid) == ("Class", "edge")]
+        cls = [t for kid, t in e[3] if ("Class", "edge") in kt.get(kid, ())]
         if len(cls) != 1 or e[2] != cls[0]:
             errs.append(["edge", e[0], e[1], e[2], cls])
     return errs
@@ -451,6 +479,18 @@ def gen_raw_spec(rng, maxn=8, maxe=12, maxp=6, maxlen=24, floats=False, nid_adve
     # a few later updates so that dict orders are not just creation order
     for _ in range(rng.choice([0, 0, 1, 2])):
         updates.append([rng.choice(nids), rng.choice(PROP_NAMES), gen_value(rng, maxlen, floats)])
+    # key-table collisions: one property name on nodes and on edges with different value types, and with
+    # different types from node to node
+    if rng.random() < 0.35:
+        name = rng.choice(["Index", "Name", "p1", "x-y", "label", "w", "Type"])
+        kinds = [lambda i: i + 1, lambda i: "t%d" % i, lambda i: i % 2 == 0]
+        kn, ke = rng.sample(kinds, 2)
+        mixed = rng.random() < 0.4
+        for i, nd in enumerate(nodes):
+            if rng.random() < 0.8:
+                nd[2][name] = (rng.choice(kinds)(i) if mixed else kn(i))
+        for i, ed in enumerate(edges):
+            ed[3][name] = ke(i)
     return {"nodes": nodes, "edges": edges, "updates": updates}
 
 
@@ -462,6 +502,40 @@ def build_raw(g, spec):
         g.add_link(node_a=a, rel=rel, node_b=b, props=dict(props) or None)
     for nid, name, v in spec.get("updates", []):
         g.update_node_property(node_id=nid, prop_name=name, prop_val=v)
+
+
+def mutate_graph(g, st_snapshot_nids, seed):
+    """edit the held graph after it was saved: update / add node / add link / delete node, chosen from `seed`"""
+    import random as _r
+    rng = _r.Random("C01/mutate/%s" % seed)
+    nids = list(st_snapshot_nids)
+    done = []
+    for _ in range(rng.choice([1, 2, 3])):
+        op = rng.choice(["update", "update", "add_node", "add_link", "del_node"])
+        try:
+            if op == "update":
+                nid = rng.choice(nids)
+                g.update_node_property(node_id=nid, prop_name=rng.choice(["Name", "p1", "Site", "edited"]), prop_val="edited-%d" % rng.randrange(1000))
+            elif op == "add_node":
+                nid = "added-%d" % rng.randrange(10 ** 6)
+                g.add_node(node_id=nid, label="NetworkNode", props={"Name": "added", "Index": 5})
+                nids.append(nid)
+            elif op == "add_link" and len(nids) >= 2:
+                a, b = rng.sample(nids, 2)
+                g.add_link(node_a=a, rel="connects", node_b=b, props={"edited": "yes"})
+            elif op == "del_node" and len(nids) >= 2:
+                nid = rng.choice(nids)
+                g.delete_node(node_id=nid)
+                nids.remove(nid)
+            else:
+                continue
+            done.append(op)
+        except Exception:
+            pass
+    if not done:
+        g.update_node_property(node_id=nids[0], prop_name="edited", prop_val="yes")
+        done.append("update")
+    return done
 
 
 def spec_values(spec):
